@@ -186,6 +186,52 @@ def run_apalache(module, cinit, init, inv, length, expect_violation=False, timeo
     return res
 
 
+def run_tlapm(module, expect_failure=False, subst=None, timeout=600, threads=8):
+    """Check the TLAPS proofs of spec/<module>.tla from scratch (copy in a scratch directory, no fingerprints).
+    `subst` = (old, new) text replacement applied to the copy (anti-vacuity: the proof must then NOT go through).
+    A run that reaches no verdict is recorded as skipped (it says nothing about /repo)."""
+    d = outdir("tlapm", "%s-%d-%d" % (module, os.getpid(), 1 if expect_failure else 0), clean=True)
+    src = open(os.path.join(SPEC, module + ".tla")).read()
+    if subst:
+        if subst[0] not in src:
+            raise ToolError("run_tlapm: %r not found in %s" % (subst[0], module))
+        src = src.replace(subst[0], subst[1])
+    with open(os.path.join(d, module + ".tla"), "w") as f:
+        f.write(src)
+    t0 = time.time()
+    try:
+        p = subprocess.run(["tlapm", "--threads", str(threads), "--cleanfp", "--stretch", "0.3" if expect_failure else "1",
+                            module + ".tla"], cwd=d,
+                           stdout=subprocess.PIPE, stderr=subprocess.STDOUT, text=True, timeout=timeout)
+        out = p.stdout
+        rc = p.returncode
+    except subprocess.TimeoutExpired:
+        out, rc = "", -1
+    shutil.rmtree(d, ignore_errors=True)
+    res = {"module": module, "cfg": "tlapm --cleanfp" + (" (with %s)" % subst[1] if subst else ""), "states": 0,
+           "transitions": 0, "proof": True, "wall_s": round(time.time() - t0, 2), "exit": rc}
+    m = re.search(r"All (\d+) obligations? proved", out)
+    f = re.search(r"(\d+)/(\d+) obligations? failed", out)
+    if m:
+        res["obligations_proved"] = int(m.group(1))
+    if f:
+        res["obligations_failed"] = int(f.group(1))
+        res["obligations"] = int(f.group(2))
+    if not m and not f:
+        res["skipped"] = "tlapm reached no verdict (exit %d): %s" % (rc, out.strip()[-300:])
+        log("note: tlapm run skipped for %s (no verdict, exit %d)" % (module, rc))
+        return res
+    if expect_failure:
+        if m:
+            raise ToolError("anti-vacuity tlapm run of %s: the proof went through although it must not" % module)
+        res["expected_violation"] = "unproved obligation"
+        return res
+    if not m:
+        sys.stdout.write(out[-4000:])
+        raise ToolError("tlapm: %s has unproved obligations: the proof itself is broken" % module)
+    return res
+
+
 def gen_cases(module, cfg, timeout=600, xmx="4g", marker="CASE"):
     """Runs a GEN_* generator spec; returns the JSON payloads of its
     PrintT(<<"CASE", ToJson(..)>>) lines plus TLC's state counts."""
